@@ -49,6 +49,10 @@ CHECKS = {
    technique="TLC model checking of spec/Derive.tla (abstract model with one field of every derive kind; Idempotent, Rereadable, Preserves over all presence patterns x tag/catch-all configurations) mapped onto every typed model by the source extractor and replayed through the real derived readers/writers",
    text="TLC checks W(R(W(R(d)))) = W(R(d)) and entry preservation for all presence/default/one-or-many/unknown-key/type-tag patterns of the abstract derive model (4 configurations) and refutes the 'writer drops the catch-all' deviation; each pattern is instantiated for every typed model that has a reader and a writer (fields and types found in the sources at check time) and executed R-W-R-W with a recording Updater and a resolver that knows the created objects.",
    note="Values per field type come from a fixed table; models without writer are listed; hand-written pairs are not covered by this run."),
+ "C10": dict(level="model_checking", design="5/C10", engine="A:build",
+   technique="TLC model checking of spec/Builder.tla (the builder's sequence of promise/create/fulfil/save steps over the empty store; NoDanglingRefs, NothingPromised, SizeAboveAll, PagesReadBack) + replay through PdfBuilder::build with an independent structural validator and a reload comparison",
+   text="TLC runs the builder Mech for every input within the bound and checks the structural and read-back invariants on the object graph it produces, refuting two deviations; every input is built with the real PdfBuilder, the bytes are judged by a validator that shares no code with the library (self-tested on seeded corruptions each run) and reloaded to compare pages, resources, operations and info with the input.",
+   note="Bounded inputs; trusted: TLC, the validator (harness/src/validate.rs, refparse.rs)."),
 }
 
 def main():
